@@ -81,6 +81,12 @@ func main() {
 	for i, f := range files {
 		in.used = false
 		for _, d := range f.Decls {
+			if fd, ok := d.(*ast.FuncDecl); ok && fd.Body != nil && osSeamFiles[bp.GoFiles[i]] {
+				in.curFn = fd.Name.Name
+				in.wrapOSCalls(fd.Body)
+			}
+		}
+		for _, d := range f.Decls {
 			if fd, ok := d.(*ast.FuncDecl); ok && fd.Body != nil {
 				in.curFn = fd.Name.Name
 				if fd.Recv != nil && len(fd.Recv.List) == 1 {
@@ -122,6 +128,107 @@ func main() {
 		fmt.Fprintln(os.Stderr, "warning:", w)
 	}
 	fmt.Fprintf(os.Stderr, "instrumented %d files, %d sites\n", len(files), len(in.sites))
+}
+
+// osSeamFiles: the files whose calls into os / syscall / (*os.File) get the OS-fault seam
+// (the Unix file server; the rest of the library makes no file system calls on behalf of clients).
+var osSeamFiles = map[string]bool{"ufs.go": true}
+
+// wrapOSCalls rewrites, in place, every call  os.F(args) / syscall.F(args) / file.M(args)  whose last
+// result is an error into
+//
+//	func() (r0 T0, ..., err error) { if e := simrt.OSFault(site, "os.F"); e != nil { err = e; return }; return os.F(args) }()
+//
+// so that the simulator can make the call fail (instead of performing it) with an errno of its choice.
+func (in *inst) wrapOSCalls(body *ast.BlockStmt) {
+	var targets []*ast.CallExpr
+	ast.Inspect(body, func(n ast.Node) bool {
+		switch v := n.(type) {
+		case *ast.DeferStmt, *ast.GoStmt:
+			return false
+		case *ast.CallExpr:
+			if name := in.osCallName(v); name != "" {
+				targets = append(targets, v)
+			}
+		}
+		return true
+	})
+	for _, c := range targets {
+		name := in.osCallName(c)
+		tv, ok := in.info.Types[c]
+		if !ok {
+			continue
+		}
+		var results []types.Type
+		switch t := tv.Type.(type) {
+		case *types.Tuple:
+			for i := 0; i < t.Len(); i++ {
+				results = append(results, t.At(i).Type())
+			}
+		default:
+			results = []types.Type{tv.Type}
+		}
+		fields := &ast.FieldList{}
+		for i, rt := range results {
+			nm := "_r" + strconv.Itoa(i)
+			if i == len(results)-1 {
+				nm = "_err"
+			}
+			fields.List = append(fields.List, &ast.Field{Names: []*ast.Ident{ast.NewIdent(nm)}, Type: in.typeExpr(rt)})
+		}
+		orig := &ast.CallExpr{Fun: c.Fun, Args: c.Args, Ellipsis: c.Ellipsis}
+		guard := &ast.IfStmt{
+			Init: &ast.AssignStmt{Lhs: []ast.Expr{ast.NewIdent("_e")}, Tok: token.DEFINE,
+				Rhs: []ast.Expr{rtCall("OSFault", in.site("oscall", c.Pos()), &ast.BasicLit{Kind: token.STRING, Value: strconv.Quote(name)})}},
+			Cond: &ast.BinaryExpr{X: ast.NewIdent("_e"), Op: token.NEQ, Y: ast.NewIdent("nil")},
+			Body: &ast.BlockStmt{List: []ast.Stmt{
+				&ast.AssignStmt{Lhs: []ast.Expr{ast.NewIdent("_err")}, Tok: token.ASSIGN, Rhs: []ast.Expr{ast.NewIdent("_e")}},
+				&ast.ReturnStmt{},
+			}},
+		}
+		lit := &ast.FuncLit{Type: &ast.FuncType{Params: &ast.FieldList{}, Results: fields},
+			Body: &ast.BlockStmt{List: []ast.Stmt{guard, &ast.ReturnStmt{Results: []ast.Expr{orig}}}}}
+		c.Fun, c.Args, c.Ellipsis = lit, nil, token.NoPos
+		in.used = true
+	}
+}
+
+// osCallName returns "os.Lstat", "syscall.Rename", "os.File.ReadAt", ... for calls that get the seam.
+func (in *inst) osCallName(c *ast.CallExpr) string {
+	sel, ok := c.Fun.(*ast.SelectorExpr)
+	if !ok {
+		return ""
+	}
+	tv, ok := in.info.Types[c]
+	if !ok {
+		return ""
+	}
+	last := tv.Type
+	if t, ok := last.(*types.Tuple); ok {
+		if t.Len() == 0 {
+			return ""
+		}
+		last = t.At(t.Len() - 1).Type()
+	}
+	if last.String() != "error" {
+		return ""
+	}
+	if id, ok := sel.X.(*ast.Ident); ok {
+		if pn, ok := in.info.Uses[id].(*types.PkgName); ok {
+			if p := pn.Imported().Path(); p == "os" || p == "syscall" {
+				return p + "." + sel.Sel.Name
+			}
+			return ""
+		}
+	}
+	if s := in.info.Selections[sel]; s != nil {
+		if fn, ok := s.Obj().(*types.Func); ok && fn.Pkg() != nil && fn.Pkg().Path() == "os" {
+			if r := fn.Type().(*types.Signature).Recv(); r != nil && r.Type().String() == "*os.File" {
+				return "os.File." + sel.Sel.Name
+			}
+		}
+	}
+	return ""
 }
 
 func die(err error) { fmt.Fprintln(os.Stderr, "instrument:", err); os.Exit(2) }
